@@ -10,10 +10,9 @@ package phase4
 //@   ensures[spacing] forall b int, k int :: 0 <= b && b < len(g.Layers) && 0 <= k && k < len(g.Layers[b].Nodes) - 1 ==>
 //@       g.Layers[b].Nodes[k+1].X == g.Layers[b].Nodes[k].X + g.Layers[b].Nodes[k].W + params.NodeSpacing
 //@   ensures[width] forall b int :: 0 <= b && b < len(g.Layers) ==> g.Layers[b].W == rowW(g.Layers[b], params.NodeSpacing)
-//@   ensures[height] forall b int, k int :: 0 <= b && b < len(g.Layers) && 0 <= k && k < len(g.Layers[b].Nodes) ==>
-//@       g.Layers[b].H >= g.Layers[b].Nodes[k].H
-//@   ensures[nonneg] forall b int, k int :: 0 <= b && b < len(g.Layers) && 0 <= k && k < len(g.Layers[b].Nodes) ==>
-//@       g.Layers[b].Nodes[k].X >= 0.0
+//@   ensures[height] heightsOK(g) && bandHeightsNonNeg(g)
+//@   ensures[nonneg] xNonNeg(g)
+//@   ensures[sep] sepOK(g, params.NodeSpacing)
 //@   ensures[midpoints] forall b int, c int :: 0 <= b && b < len(g.Layers) && 0 <= c && c < len(g.Layers)
 //@       && len(g.Layers[b].Nodes) > 0 && len(g.Layers[c].Nodes) > 0 ==>
 //@       g.Layers[b].Nodes[0].X + rowW(g.Layers[b], params.NodeSpacing) / 2.0 == g.Layers[c].Nodes[0].X + rowW(g.Layers[c], params.NodeSpacing) / 2.0
@@ -23,19 +22,94 @@ package phase4
 //@     invariant forall b int :: 0 <= b && b < a ==> g.Layers[b].W == rowW(g.Layers[b], params.NodeSpacing) && g.Layers[b].W >= 0.0 && maxW >= g.Layers[b].W
 //@     invariant forall b int, k int :: 0 <= b && b < a && 0 <= k && k < len(g.Layers[b].Nodes) ==> g.Layers[b].H >= g.Layers[b].Nodes[k].H
 //@     invariant maxW >= 0.0
+//@     invariant forall b int :: 0 <= b && b < a ==> g.Layers[b].H >= 0.0
 //@     invariant maxW == 0.0 || (exists b int :: 0 <= b && b < a && g.Layers[b].W == maxW)
 //@   loop range(layer.Nodes)#1 index i
 //@     invariant layer.W == rowPre(layer, i, params.NodeSpacing) - ((i > 0 && i == len(layer.Nodes)) ? params.NodeSpacing : 0.0)
-//@     invariant layer.W >= 0.0
+//@     invariant layer.W >= 0.0 && layer.H >= 0.0
 //@     invariant forall k int :: 0 <= k && k < i ==> layer.H >= layer.Nodes[k].H
 //@     invariant forall l *Layer :: l != layer ==> l.W == loopold(l.W) && l.H == loopold(l.H)
 //@   loop range(g.Layers)#2 index c
 //@     invariant forall b int, k int :: 0 <= b && b < c && 0 <= k && k < len(g.Layers[b].Nodes) ==>
 //@       g.Layers[b].Nodes[k].X == (maxW - g.Layers[b].W) / 2.0 + rowPre(g.Layers[b], k, params.NodeSpacing)
 //@     invariant forall b int, k int :: 0 <= b && b < c && 0 <= k && k < len(g.Layers[b].Nodes) ==> g.Layers[b].Nodes[k].X >= 0.0
+//@     invariant forall b int, i int, j int :: 0 <= b && b < c && 0 <= i && i < j && j < len(g.Layers[b].Nodes) ==>
+//@       g.Layers[b].Nodes[i].X + g.Layers[b].Nodes[i].W + params.NodeSpacing <= g.Layers[b].Nodes[j].X
 //@   loop range(layer.Nodes)#2 index d
+//@     invariant forall k int :: 0 <= k && k < d ==> layer.Nodes[k].X + layer.Nodes[k].W + params.NodeSpacing <= pos
+//@     invariant forall i int, j int :: 0 <= i && i < j && j < d ==> layer.Nodes[i].X + layer.Nodes[i].W + params.NodeSpacing <= layer.Nodes[j].X
+//@     invariant forall b int, i int, j int :: 0 <= b && b < c && 0 <= i && i < j && j < len(g.Layers[b].Nodes) ==>
+//@       g.Layers[b].Nodes[i].X + g.Layers[b].Nodes[i].W + params.NodeSpacing <= g.Layers[b].Nodes[j].X
 //@     invariant pos == (maxW - layer.W) / 2.0 + rowPre(layer, d, params.NodeSpacing)
 //@     invariant pos >= 0.0
 //@     invariant forall k int :: 0 <= k && k < d ==> layer.Nodes[k].X == (maxW - layer.W) / 2.0 + rowPre(layer, k, params.NodeSpacing) && layer.Nodes[k].X >= 0.0
 //@     invariant forall b int, k int :: 0 <= b && b < c && 0 <= k && k < len(g.Layers[b].Nodes) ==>
 //@       g.Layers[b].Nodes[k].X == (maxW - g.Layers[b].W) / 2.0 + rowPre(g.Layers[b], k, params.NodeSpacing) && g.Layers[b].Nodes[k].X >= 0.0
+
+//@ func execPackRight
+//@   requires g != nil && bandsDistinct(g) && sizesNonNeg(g) && params.NodeSpacing >= 0.0 && bandHeightsNonNeg(g)
+//@   modifies Node.X, Layer.H
+//@   ensures[spacing] forall b int, k int :: 0 <= b && b < len(g.Layers) && 0 <= k && k < len(g.Layers[b].Nodes) - 1 ==>
+//@       g.Layers[b].Nodes[k+1].X == g.Layers[b].Nodes[k].X + g.Layers[b].Nodes[k].W + params.NodeSpacing
+//@   ensures[extent] forall b int :: 0 <= b && b < len(g.Layers) && len(g.Layers[b].Nodes) > 0 ==>
+//@       g.Layers[b].Nodes[len(g.Layers[b].Nodes)-1].X + g.Layers[b].Nodes[len(g.Layers[b].Nodes)-1].W - g.Layers[b].Nodes[0].X
+//@         == rowSuf(g.Layers[b], 0, params.NodeSpacing) - params.NodeSpacing
+//@   ensures[rightends] forall b int, c int :: 0 <= b && b < len(g.Layers) && 0 <= c && c < len(g.Layers)
+//@       && len(g.Layers[b].Nodes) > 0 && len(g.Layers[c].Nodes) > 0 ==>
+//@       g.Layers[b].Nodes[len(g.Layers[b].Nodes)-1].X + g.Layers[b].Nodes[len(g.Layers[b].Nodes)-1].W
+//@         == g.Layers[c].Nodes[len(g.Layers[c].Nodes)-1].X + g.Layers[c].Nodes[len(g.Layers[c].Nodes)-1].W
+//@   ensures[nonneg] xNonNeg(g)
+//@   ensures[leftmost] (exists b int :: 0 <= b && b < len(g.Layers) && len(g.Layers[b].Nodes) > 0) ==>
+//@       (exists b int :: 0 <= b && b < len(g.Layers) && len(g.Layers[b].Nodes) > 0 && g.Layers[b].Nodes[0].X == 0.0)
+//@   ensures[sep] sepOK(g, params.NodeSpacing)
+//@   ensures[height] heightsOK(g) && bandHeightsNonNeg(g)
+//@   loop range(g.Layers)#1 index a
+//@     invariant forall b int, k int :: 0 <= b && b < a && 0 <= k && k < len(g.Layers[b].Nodes) ==>
+//@       g.Layers[b].Nodes[k].X == 0.0 - rowSuf(g.Layers[b], k, params.NodeSpacing) && g.Layers[b].Nodes[k].X >= leftBound
+//@     invariant leftBound <= 0.0
+//@     invariant forall b int :: 0 <= b && b < a ==> leftBound <= 0.0 - rowSuf(g.Layers[b], 0, params.NodeSpacing) && rowSuf(g.Layers[b], 0, params.NodeSpacing) >= 0.0
+//@     invariant leftBound == 0.0 || (exists b int :: 0 <= b && b < a && leftBound == 0.0 - rowSuf(g.Layers[b], 0, params.NodeSpacing))
+//@     invariant forall b int, p int, q int :: 0 <= b && b < a && 0 <= p && p < q && q < len(g.Layers[b].Nodes) ==>
+//@       rowSuf(g.Layers[b], p, params.NodeSpacing) - rowSuf(g.Layers[b], q, params.NodeSpacing) >= g.Layers[b].Nodes[p].W + params.NodeSpacing
+//@   loop range(slices.Backward(l.Nodes))#1 index i
+//@     invariant forall p int, q int :: len(l.Nodes) - i <= p && p < q && q < len(l.Nodes) ==>
+//@       rowSuf(l, p, params.NodeSpacing) - rowSuf(l, q, params.NodeSpacing) >= l.Nodes[p].W + params.NodeSpacing
+//@     invariant x == 0.0 - rowSuf(l, len(l.Nodes) - i, params.NodeSpacing) && x <= 0.0
+//@     invariant forall k int :: len(l.Nodes) - i <= k && k < len(l.Nodes) ==>
+//@       l.Nodes[k].X == 0.0 - rowSuf(l, k, params.NodeSpacing) && l.Nodes[k].X >= x
+//@     invariant forall b int, k int :: 0 <= b && b < a && 0 <= k && k < len(g.Layers[b].Nodes) ==>
+//@       g.Layers[b].Nodes[k].X == 0.0 - rowSuf(g.Layers[b], k, params.NodeSpacing) && g.Layers[b].Nodes[k].X >= leftBound
+//@   loop range(g.Layers)#2 index c
+//@     invariant bandHeightsNonNeg(g)
+//@     invariant forall b int, k int :: 0 <= b && b < c && 0 <= k && k < len(g.Layers[b].Nodes) ==>
+//@       g.Layers[b].Nodes[k].X == 0.0 - rowSuf(g.Layers[b], k, params.NodeSpacing) - leftBound && g.Layers[b].Nodes[k].X >= 0.0
+//@       && g.Layers[b].H >= g.Layers[b].Nodes[k].H
+//@     invariant forall b int, k int :: c <= b && b < len(g.Layers) && 0 <= k && k < len(g.Layers[b].Nodes) ==>
+//@       g.Layers[b].Nodes[k].X == 0.0 - rowSuf(g.Layers[b], k, params.NodeSpacing) && g.Layers[b].Nodes[k].X >= leftBound
+//@   loop range(l.Nodes)#1 index d
+//@     invariant bandHeightsNonNeg(g)
+//@     invariant forall k int :: 0 <= k && k < d ==>
+//@       l.Nodes[k].X == 0.0 - rowSuf(l, k, params.NodeSpacing) - leftBound && l.Nodes[k].X >= 0.0 && l.H >= l.Nodes[k].H
+//@     invariant forall k int :: d <= k && k < len(l.Nodes) ==>
+//@       l.Nodes[k].X == 0.0 - rowSuf(l, k, params.NodeSpacing) && l.Nodes[k].X >= leftBound
+//@     invariant forall b int, k int :: 0 <= b && b < c && 0 <= k && k < len(g.Layers[b].Nodes) ==>
+//@       g.Layers[b].Nodes[k].X == 0.0 - rowSuf(g.Layers[b], k, params.NodeSpacing) - leftBound && g.Layers[b].Nodes[k].X >= 0.0
+//@       && g.Layers[b].H >= g.Layers[b].Nodes[k].H
+//@     invariant forall b int, k int :: c < b && b < len(g.Layers) && 0 <= k && k < len(g.Layers[b].Nodes) ==>
+//@       g.Layers[b].Nodes[k].X == 0.0 - rowSuf(g.Layers[b], k, params.NodeSpacing) && g.Layers[b].Nodes[k].X >= leftBound
+
+//@ func assignYCoords
+//@   requires g != nil && bandsDistinct(g) && bandHeightsNonNeg(g) && layerSpacing >= 0.0
+//@   modifies Node.Y
+//@   ensures[bandy] bandYOK(g, layerSpacing)
+//@   ensures[below] forall k int, m int :: 0 <= k && k < m && m < len(g.Layers) ==>
+//@       bandY(g, m, layerSpacing) >= bandY(g, k, layerSpacing) + g.Layers[k].H + layerSpacing
+//@   ensures[ynonneg] forall k int :: 0 <= k && k < len(g.Layers) ==> bandY(g, k, layerSpacing) >= 0.0
+//@   loop range(g.Layers)#1 index a
+//@     invariant y == bandY(g, a, layerSpacing) && y >= 0.0
+//@     invariant forall k int, j int :: 0 <= k && k < a && 0 <= j && j < len(g.Layers[k].Nodes) ==> g.Layers[k].Nodes[j].Y == bandY(g, k, layerSpacing)
+//@     invariant forall k int :: 0 <= k && k < a ==> y >= bandY(g, k, layerSpacing) + g.Layers[k].H + layerSpacing && bandY(g, k, layerSpacing) >= 0.0
+//@     invariant forall k int, m int :: 0 <= k && k < m && m < a ==> bandY(g, m, layerSpacing) >= bandY(g, k, layerSpacing) + g.Layers[k].H + layerSpacing
+//@   loop range(l.Nodes)#1 index d
+//@     invariant forall j int :: 0 <= j && j < d ==> l.Nodes[j].Y == y
+//@     invariant forall k int, j int :: 0 <= k && k < a && 0 <= j && j < len(g.Layers[k].Nodes) ==> g.Layers[k].Nodes[j].Y == bandY(g, k, layerSpacing)
